@@ -16,6 +16,8 @@ CONSTANTS
   DevNilFwd = TRUE
   DevStaleSrc = TRUE
   DevSleepLimiter = FALSE
+  DevWriteLock = FALSE
+  DevRouteFirst = FALSE
   Gen = FALSE
   Emit = FALSE
 SPECIFICATION LiveSpec
